@@ -23,7 +23,7 @@ THEOREMS = ["NfcVerif.C08." + t for t in (
     "session_safe", "t1_read_safe", "t2_read_safe", "t3_read_safe", "t3_polling_shape", "t4_read_safe", "t4_read_safe_frames",
     "isodep_exchange_safe", "isodep_asfound_is_shared_model", "is_present_safe_t1", "is_present_safe_t2", "is_present_safe_t3",
     "is_present_safe_t3rr", "is_present_safe_t4", "ops_safe", "activate_safe", "isodep_wtx_endless_counterexample",
-    "isodep_ack_endless_counterexample")]
+    "isodep_ack_endless_counterexample", "isodep_chain_endless_counterexample")]
 
 # interactions (clf.exchange / clf.sense) one _read_ndef_data may need; stated by the theorems
 BOUND = {"t1": 70, "t2": 33000, "t3": 3 * 65537, "t4": None}
@@ -496,7 +496,9 @@ def run(ck):
                 rsp2, _ = regen(kind, d, rsp)
                 R.case(rsp2, d, bud, garble={k: junk}, ops=ops)
             # tag.dump() on the same tag (oracle only)
-            if i % 3 == 0:
+            # (a Type 2 / Type 3 Tag that answers every address makes dump() read 65536 pages / blocks: fewer of those)
+            long_dump = (kind == "t2" and rsp.beyond == "wrap") or (kind == "t3" and (rsp.beyond == "data" or rsp.nblocks > 70000))
+            if i % (24 if long_dump and not T else 3) == 0:
                 rsp2, _ = regen(kind, d, rsp)
                 R.dump(rsp2, d, DUMP_BUDGET[kind] if kind != "t4" else bud)
         R.flush("adversarial %s tag: outcome, interaction count, commands" % kind)
